@@ -338,6 +338,8 @@ def hard_bound(K):
             inst = red.instances(p.ex, [], [t for t in p.ex.index_terms])
             K.prove(f'ppm.bound[M={M}][{p.signature()}]', list(p.pc) + inst, z3.And(v <= z3.RealVal(Fraction(M, 2 * (M - 1))), v >= 0),
                     words='0 <= BER_hard <= M/(2(M-1)) for every mu, s0, s1 > 0')
+            bad = frame_violations(p)
+            (K.fail if bad else K.ok)(f'ppm.frame[M={M}][{p.signature()}]', '; '.join(bad) if bad else 'the result depends on (mu, s0, s1, M, decision) only: no state kept between calls')
     ps = K.paths(lambda ex: unwrap0(ex.call_fn(f_ook, [mu, s0, s1], {})), [mu > 0, s0 > 0, s1 > 0])
     for p in ps:
         if p.kind != 'ret':
@@ -384,6 +386,12 @@ def bounded(K):
                     hard = float(ppm.theory_BER(mu, s0, s1, M, 'hard'))
                     soft = float(ppm.theory_BER(mu, s0, s1, M, 'soft'))
                     lim = M / 2 / (M - 1)
+                    # independent evaluation of the documented formulas for THIS M (calls for other orders precede this one in the same process)
+                    rg = np.linspace(0, mu, 1000)
+                    hard_ref = lim * float(np.min(1 - Q((rg - mu) / s1) * (1 - Q(rg / s0)) ** (M - 1)))
+                    soft_ref = lim * (1 - 1 / (2 * np.pi) ** 0.5 * quad(lambda x: (1 - Q((mu + s1 * x) / s0)) ** (M - 1) * np.exp(-x ** 2 / 2), -np.inf, np.inf)[0])
+                    if not (close(hard, hard_ref, 1e-9, 1e-300) and close(soft, soft_ref, 1e-6, 1e-13)):
+                        bad.append({'fn': 'ppm.theory_BER vs the documented formula for the requested M', 'M': M, 'mu': mu, 's0': s0, 's1': s1, 'hard': hard, 'hard_ref': hard_ref, 'soft': soft, 'soft_ref': soft_ref})
                     if not (-1e-12 <= soft <= hard * (1 + 1e-6) + 1e-15 and hard <= lim + 1e-12):
                         bad.append({'fn': 'ppm.theory_BER soft<=hard<=M/(2(M-1))', 'M': M, 'mu': mu, 's0': s0, 's1': s1, 'soft': soft, 'hard': hard})
                     if M == 2 and not close(soft, float(Q(mu / (s0 ** 2 + s1 ** 2) ** 0.5)), 1e-6, 1e-13):
